@@ -947,28 +947,6 @@ func (w *Writer) writeEntryPointInputStruct(epIdx int, ep *ir.EntryPoint, fn *ir
 	// self.namer.call(&format!("{fun_name}Input"))
 	structName := w.namer.call(epName + "Input")
 
-	if hasLocationInputs {
-		emitInputStruct(structName, func() {
-			for i, arg := range fn.Arguments {
-				if arg.Binding == nil {
-					continue
-				}
-				loc, ok := (*arg.Binding).(ir.LocationBinding)
-				if !ok {
-					continue
-				}
-				argName := w.getName(nameKey{kind: nameKeyFunctionArgument, handle1: uint32(epFuncHandle(epIdx)), handle2: uint32(i)})
-				argType := w.writeTypeName(arg.Type, StorageAccess(0))
-
-				attr := locationInputAttribute(loc, ep.Stage, w.typeScalarKind(arg.Type))
-				w.WriteLine("%s %s %s;", argType, argName, attr)
-			}
-		})
-
-		w.hasVaryings = true
-		return structName, true
-	}
-
 	// Collect ALL struct args without bindings (flattened struct inputs).
 	// Rust naga flattens location members from ALL struct args into a single input struct.
 	type structArgInfo struct {
@@ -989,6 +967,13 @@ func (w *Writer) writeEntryPointInputStruct(epIdx int, ep *ir.EntryPoint, fn *ir
 		}
 	}
 
+	// Only directly bound location arguments: they are the members of the input struct.
+	if hasLocationInputs && len(structArgs) == 0 {
+		emitInputStruct(structName, func() { w.writeBareLocationInputs(epIdx, ep, fn) })
+		w.hasVaryings = true
+		return structName, true
+	}
+
 	// Emit empty input struct for entry points with builtin-only arguments
 	// (matching Rust naga behavior), but only if no struct arg will emit it.
 	if hasAnyBindingInputs && len(structArgs) == 0 {
@@ -1004,6 +989,17 @@ func (w *Writer) writeEntryPointInputStruct(epIdx int, ep *ir.EntryPoint, fn *ir
 		// collisions with global names. Builtin members use the global namer.
 		hasLocations := false
 		varyingsNamer := newNamer()
+		if hasLocationInputs {
+			// directly bound location arguments are members of the same struct
+			for i, arg := range fn.Arguments {
+				if arg.Binding == nil {
+					continue
+				}
+				if _, ok := (*arg.Binding).(ir.LocationBinding); ok {
+					varyingsNamer.call(w.getName(nameKey{kind: nameKeyFunctionArgument, handle1: uint32(epFuncHandle(epIdx)), handle2: uint32(i)}))
+				}
+			}
+		}
 		for _, sa := range structArgs {
 			for memberIdx, member := range sa.st.Members {
 				key := nameKey{kind: nameKeyStructMember, handle1: uint32(sa.tyH), handle2: uint32(memberIdx)}
@@ -1027,8 +1023,12 @@ func (w *Writer) writeEntryPointInputStruct(epIdx int, ep *ir.EntryPoint, fn *ir
 			}
 		}
 
-		// Emit input struct with location-bound members from ALL struct args.
+		// Emit input struct with the directly bound location arguments and the
+		// location-bound members from ALL struct args.
 		emitInputStruct(structName, func() {
+			if hasLocationInputs {
+				w.writeBareLocationInputs(epIdx, ep, fn)
+			}
 			for _, sa := range structArgs {
 				for memberIdx, member := range sa.st.Members {
 					if member.Binding == nil {
@@ -1047,10 +1047,29 @@ func (w *Writer) writeEntryPointInputStruct(epIdx int, ep *ir.EntryPoint, fn *ir
 			}
 		})
 
-		w.hasVaryings = hasLocations
+		w.hasVaryings = hasLocations || hasLocationInputs
 		return structName, true
 	}
 	return "", false
+}
+
+// writeBareLocationInputs writes one input struct member per entry point argument that
+// carries a @location binding itself.
+func (w *Writer) writeBareLocationInputs(epIdx int, ep *ir.EntryPoint, fn *ir.Function) {
+	for i, arg := range fn.Arguments {
+		if arg.Binding == nil {
+			continue
+		}
+		loc, ok := (*arg.Binding).(ir.LocationBinding)
+		if !ok {
+			continue
+		}
+		argName := w.getName(nameKey{kind: nameKeyFunctionArgument, handle1: uint32(epFuncHandle(epIdx)), handle2: uint32(i)})
+		argType := w.writeTypeName(arg.Type, StorageAccess(0))
+
+		attr := locationInputAttribute(loc, ep.Stage, w.typeScalarKind(arg.Type))
+		w.WriteLine("%s %s %s;", argType, argName, attr)
+	}
 }
 
 // writeEntryPointOutputStruct writes the output struct for an entry point.
